@@ -34,6 +34,8 @@ FOCUS = {
     "elements": {"mk_elem": 2.0, "mk_mesh": 2.0, "mk_basis": 5.0,
                  "elem_lbasis": 3.0, "basis_observe": 2.0, "basis_derive": 1.5,
                  "mesh_refined": 1.0},
+    "project": {"mk_vec": 4.0, "basis_misc": 6.0, "basis_interpolate": 1.5,
+                "basis_derive": 1.0, "mk_form": 0.5, "assemble": 1.0},
     "points": {"mk_vec": 2.0, "basis_point": 6.0, "mesh_finder": 3.0,
                "basis_interpolate": 1.5, "basis_misc": 1.5,
                "mesh_refined": 0.7},
